@@ -59,6 +59,8 @@ contract(
              'result[0][Rank(block0, nb_series, r2, c2)] == r2 and result[1][Rank(block0, nb_series, r2, c2)] == c2))',
              'forall(lambda k: implies(0 <= k < Len(block0, nb_series), '
              'Sel(block0, nb_series, result[0][k], result[1][k]) and Rank(block0, nb_series, result[0][k], result[1][k]) == k))',
+             # NumPy: np.array([]) has a float dtype; index arrays must be integer typed to be usable
+             'IntDtype(result[0]) and IntDtype(result[1])',
              ],
     kinds={'idxsl_r': 'int', 'idxsl_c': 'int'},
     loops={
@@ -147,4 +149,34 @@ contract(
     theories=('layout',),
     lemmas=['LenFullClosed'],
     props=('C06',),
+)
+
+
+_IDXS_RET = ('tuple', 'idxarr', 'idxarr')
+
+# give the callee contract a result shape (two integer index arrays)
+from dvc.contracts import CONTRACTS as _C  # noqa: E402
+_C['dtw._distance_matrix_idxs'].returns = _IDXS_RET
+
+contract(
+    'dtw.distances_array_to_matrix',
+    params={'dists': 'array:val', 'nb_series': 'nat', 'block': 'none', 'only_triu': 'bool'},
+    cases=BLOCK_CASES[:2],
+    bind={'block0': 'block'},
+    requires=['ValidBlock(block, nb_series)', 'length(dists) == Len(block, nb_series)', '1 <= nb_series <= 2**26'],
+    ensures=[
+        'forall(lambda r2, c2: implies(T2(r2, c2) and Sel(block0, nb_series, r2, c2), '
+        'result[r2, c2] == dists[Rank(block0, nb_series, r2, c2)]))',
+        'forall(lambda r2, c2: implies(T2(r2, c2) and Sel(block0, nb_series, r2, c2) and not only_triu, '
+        'result[c2, r2] == dists[Rank(block0, nb_series, r2, c2)]))',
+        'forall(lambda r2, c2: implies(T2(r2, c2) and 0 <= r2 < nb_series and 0 <= c2 < nb_series and not only_triu '
+        'and r2 == c2, result[r2, c2] == 0))',
+        'forall(lambda r2, c2: implies(T2(r2, c2) and 0 <= r2 < nb_series and 0 <= c2 < nb_series and r2 != c2 and '
+        'not Sel(block0, nb_series, r2, c2) and (only_triu or not Sel(block0, nb_series, c2, r2)), '
+        'result[r2, c2] == inf))',
+    ],
+    theories=('layout',),
+    lemmas=['LenFullClosed', 'LenRectClosed', 'RowsBefore', 'LenRowsNonneg'],
+    props=('C06', 'C10'),
+    note='square form: mirrored around a zero diagonal (or upper triangle only), infinity outside the block',
 )
